@@ -10,6 +10,13 @@ for f in sorted(glob.glob(os.path.join(ROOT, "findings", "*.json"))):
         if (e["property"], e["id"]) not in have:
             kf["findings"].append(e)
             have.add((e["property"], e["id"]))
+        else:  # refresh the wording from the fragment; a recorded "fixed ..." status is kept
+            for old in kf["findings"]:
+                if (old["property"], old["id"]) == (e["property"], e["id"]):
+                    st = old.get("status", "")
+                    old.update(e)
+                    if str(st).startswith("fixed"):
+                        old["status"] = st
 kf["findings"].sort(key=lambda e: (e["property"], e["id"]))
 json.dump(kf, open(p, "w"), indent=1)
 print(len(kf["findings"]), "findings")
